@@ -19,7 +19,7 @@ from .apdu import encode_max_segments_accepted, decode_max_segments_accepted, \
     SimpleAckPDU, UnconfirmedRequestPDU, apdu_types, \
     unconfirmed_request_types, confirmed_request_types, complex_ack_types, \
     error_types
-from .errors import RejectException, AbortException, UnrecognizedService
+from .errors import RejectException, AbortException, UnrecognizedService, InvalidTag
 
 # some debugging
 _debug = 0
@@ -1445,6 +1445,10 @@ class ApplicationServiceAccessPoint(ApplicationServiceElement, ServiceAccessPoin
                 except AbortException as err:
                     ApplicationServiceAccessPoint._debug("    - decoding abort: %r", err)
                     error_found = err
+                except Exception as err:
+                    # malformed parameters the decoder tripped over
+                    ApplicationServiceAccessPoint._debug("    - decoding error: %r", err)
+                    error_found = InvalidTag(str(err))
 
             # no error so far, keep going
             if not error_found:
